@@ -35,6 +35,7 @@ def amf_cfg(cfg, strict=False):
                 **({"other_plmn_first": cfg["other_plmn_first"]} if "other_plmn_first" in cfg else {}),
                 **({"snssai_shift": cfg["snssai_shift"]} if "snssai_shift" in cfg else {}),
                 **({"unsolicited_before_setup": cfg["unsolicited_before_setup"]} if "unsolicited_before_setup" in cfg else {}),
+                **({"dlnas_phase": cfg["dlnas_phase"]} if "dlnas_phase" in cfg else {}),
                 **({k: cfg[k] for k in ("int_priority", "enc_priority") if k in cfg}))
 
 
